@@ -1,6 +1,7 @@
 //! dmverif: trace generators / replayers for the TLA+ based verification of datamatrix-rs.
 mod catalogue;
 mod gen_enc;
+mod gen_geom;
 mod gen_rs;
 mod strings;
 mod util;
@@ -41,6 +42,29 @@ fn main() {
             }
             out.flush();
             eprintln!("enc: {} cases", cases.len());
+        }
+        ("gen", "place") => {
+            let mut out = Out::create(&out_path, start > 0);
+            for (i, c) in gen_geom::place_cases().iter().enumerate().skip(start) {
+                out.put(&gen_geom::place_case(i + 1, c));
+            }
+            out.flush();
+        }
+        ("gen", "geom") => {
+            let mut out = Out::create(&out_path, start > 0);
+            for (i, c) in gen_geom::geom_cases(&tier).iter().enumerate().skip(start) {
+                for r in gen_geom::geom_case_chunks(i + 1, c, &tier, seed) {
+                    out.put(&r);
+                }
+            }
+            out.flush();
+        }
+        ("gen", "shapes") => {
+            let mut out = Out::create(&out_path, start > 0);
+            for (i, c) in gen_geom::shape_cases(&tier, seed).iter().enumerate().skip(start) {
+                out.put(&gen_geom::shape_case(i + 1, c, seed));
+            }
+            out.flush();
         }
         ("gen", "rs") => {
             let cases = gen_rs::cases(&tier, seed, &focus);
